@@ -439,10 +439,13 @@ type scenario struct {
 	Conflicts int      `json:"conflicts"`
 	// CP: collisionProtection of every object of every template (default Prevent)
 	CP string `json:"collisionProtection"`
+	// Pauses: budget of the user pausing / unpausing the deployment (every toggle bumps the
+	// generation of each live revision, whose conditions then lag behind for a while)
+	Pauses int `json:"pauses"`
 }
 
 func (sc scenario) name() string {
-	return fmt.Sprintf("deployment edits=%d limit=%d statuses=%d flaky=%v cp=%s", sc.Edits, sc.Limit, len(sc.Classes), sc.Flaky, sc.CP)
+	return fmt.Sprintf("deployment edits=%d limit=%d statuses=%d flaky=%v cp=%s pauses=%d", sc.Edits, sc.Limit, len(sc.Classes), sc.Flaky, sc.CP, sc.Pauses)
 }
 
 func (sc scenario) template(i int) corev1alpha1.ObjectSetTemplateSpec {
@@ -472,10 +475,24 @@ func system(sc scenario) *world.System {
 			w.MustCreate(osw.NewOD("d", sc.template(0), lim))
 			w.Budget["edit"] = sc.Edits
 			w.Budget["conflict"] = sc.Conflicts
+			w.Budget["user-pause"] = sc.Pauses
 			return w
 		},
 		Events: func(w *world.World) []world.Event {
 			evs := osw.ReconcileEvents(w)
+			if od := w.S.Objs[osw.ODKey("d")]; od != nil && w.Budget["user-pause"] > 0 {
+				pv, _ := world.Nested(od.Content, "spec", "paused")
+				p, _ := pv.(bool)
+				name := "user:pause-od"
+				if p {
+					name = "user:unpause-od"
+				}
+				evs = append(evs, world.Event{Name: name, Apply: func(w *world.World) *world.Pass {
+					w.Budget["user-pause"]--
+					osw.SetODPaused(w, "d", !p)
+					return nil
+				}})
+			}
 			for _, e := range osw.WorkloadEvents(w, sc.Classes) {
 				if sc.Flaky != nil && !strings.HasSuffix(e.Name, "=ready") {
 					ok := false
@@ -538,7 +555,8 @@ func system(sc scenario) *world.System {
 func scenarios(quick bool) []scenario {
 	two := []string{"ready", "notready"}
 	out := []scenario{{Edits: 1, Limit: 0, Classes: two, Flaky: []string{"a"}}, {Edits: 1, Limit: -1, Classes: two, Flaky: []string{"c"}}, {Edits: 1, Limit: 0, Classes: []string{"ready"}, Flaky: []string{}, Conflicts: 1},
-		{Edits: 1, Limit: 0, Classes: two, Flaky: []string{"c"}, CP: "None"}}
+		{Edits: 1, Limit: 0, Classes: two, Flaky: []string{"c"}, CP: "None"},
+		{Edits: 1, Limit: 0, Classes: []string{"ready"}, Flaky: []string{}, Pauses: 2}}
 	if !quick {
 		out = append(out, scenario{Edits: 2, Limit: 1, Classes: two, Flaky: []string{"a"}, CP: "None"}, scenario{Edits: 2, Limit: 0, Classes: []string{"ready"}, Flaky: []string{}, CP: "IfNoController"})
 		out = append(out, scenario{Edits: 2, Limit: 0, Classes: []string{"ready"}, Flaky: []string{}}, scenario{Edits: 1, Limit: -1, Classes: two}, scenario{Edits: 2, Limit: 0, Classes: two, Flaky: []string{"a"}}, scenario{Edits: 2, Limit: 1, Classes: two, Flaky: []string{"b", "c"}})
@@ -548,7 +566,7 @@ func scenarios(quick bool) []scenario {
 
 func runSystem(o checks.Opts) *report.Report {
 	rep := report.New("C08", "system")
-	rep.Rule = "explicit-state BFS: ObjectDeployment rolling T1{a,b} -> T2{a,c} -> T1{a,b} with the real ObjectDeployment and ObjectSet controllers in any order, workload status changes, garbage collector, another actor's write landing before each write of a deployment pass (update conflict); the archival oracle on every deployment pass and 'no delete of an object the newest revision contains' on every request"
+	rep.Rule = "explicit-state BFS: ObjectDeployment rolling T1{a,b} -> T2{a,c} -> T1{a,b} with the real ObjectDeployment and ObjectSet controllers in any order, workload status changes, garbage collector, another actor's write landing before each write of a deployment pass (update conflict), the user pausing and unpausing the deployment (budgeted); the archival oracle on every deployment pass and 'no delete of an object the newest revision contains' on every request"
 	scs := scenarios(o.Quick())
 	rep.Bounds["systems"] = len(scs)
 	for i, sc := range scs {
@@ -598,9 +616,9 @@ func init() {
 			{Name: "decision", Shards: func(string) int { return 16 }, Run: runTable, Replay: replayTable},
 			{Name: "system", Shards: func(t string) int {
 				if t == "thorough" {
-					return 4
+					return 10
 				}
-				return 2
+				return 5
 			}, Run: runSystem, Replay: replaySystem, Parallel: true},
 			twin.Sub("C08", twinScenarios)},
 	})
